@@ -477,10 +477,8 @@ func (h *harness) runPledge(spec pledgeSpec) {
 		h.mu.Unlock()
 		return
 	}
+	// MaxProposals 0 is passed through: the package's DefaultConfig then decides
 	max := spec.Max
-	if max <= 0 {
-		max = 10
-	}
 	rs, err := pledge.Pledge(ctx, pledge.Config{
 		TransportClient: cl,
 		TransportServer: server,
@@ -535,10 +533,7 @@ func runCase(c tcase) (out result) {
 			}
 			h.used[m.Addr] = true
 			server := h.net.UnaryServer(addrOf(m.Addr))
-			max := m.Max
-			if max <= 0 {
-				max = 10
-			}
+			max := m.Max // 0: DefaultConfig.MaxProposals applies
 			h.views[m.Addr] = m.View
 			if err := pledge.Arbitrate(pledge.Config{
 				TransportClient: &client{UnaryClient: h.inner, h: h, self: m.Addr},
